@@ -141,6 +141,10 @@ def h_system(pbc):
         ob.append(('System.dvect(0, position)', alleq(s0.dvect(0, sa(P[1])), ref)))
         allv = s0.dvect(0, [0, 1])
         ob.append(('System.dvect(0,[0,1]) rows', band(np.shape(allv) == (2, 3), alleq(allv[1], ref))))
+        # mixed forms: a Cartesian position for one argument, atom indices for the other
+        ob.append(('System.dvect(position, 1) == dvect(position, pos[1])', alleq(s0.dvect(sa(P[0]), 1), ref)))
+        mixed = s0.dvect(sa(P[0]), [0, 1])
+        ob.append(('System.dvect(position, [0,1]): one row per addressed atom', band(np.shape(mixed) == (2, 3), alleq(mixed[1], ref)) if np.shape(mixed) == (2, 3) else False))
         refm = am.dmag(sa(P[0]), sa(P[1]), box, pbc)[0]
         ob.append(('System.dmag(0,1) == dmag(pos[0],pos[1])', eq(s0.dmag(0, 1), refm)))
         ob.append(('System.dmag(pos,pos)', eq(s0.dmag(sa(P[0]), sa(P[1])), refm)))
